@@ -130,7 +130,8 @@ fn scenario(pr: &Params) -> Verdict {
         for (i, f) in PUBLISHED.iter().enumerate() {
             // time passes between two publishes: reader tasks and everything else may run here
             world::yield_now().await;
-            let r = sock.send(msg(&[f.to_vec(), vec![b'0' + i as u8]])).await;
+            // (the first frame once more at the end: frames of equal content within one message)
+            let r = sock.send(msg(&[f.to_vec(), vec![b'0' + i as u8], f.to_vec()])).await;
             if r.is_err() {
                 world::log(format!("publish#{} -> {}", i, e3::ok_or_err(&r)));
             }
@@ -163,7 +164,7 @@ fn scenario(pr: &Params) -> Verdict {
         let mut want: Vec<Vec<Vec<u8>>> = Vec::new();
         for (i, f) in PUBLISHED.iter().enumerate() {
             if matches(&subs, f) {
-                want.push(vec![f.to_vec(), vec![b'0' + i as u8]]);
+                want.push(vec![f.to_vec(), vec![b'0' + i as u8], f.to_vec()]);
             }
         }
         if got != want {
@@ -392,9 +393,33 @@ fn fault_scenario(ty: Ty, n: usize, dead: usize, kind: u8, hash_key: u64, policy
 /// Scale family (not exhaustive in the counts): subscriber 0 subscribes to `n_topics` distinct topics and then
 /// unsubscribes from every even one; `n_subs - 1` further subscribers subscribe to one topic each; every topic is
 /// published once. Reference: the same multiset-of-prefixes model.
-fn scale_scenario(ty: Ty, n_topics: usize, n_subs: usize) -> Verdict {
+/// `topic_len`: 0 = short topics `tNNNN`; otherwise every topic is padded to exactly that many bytes (a subscription
+/// frame is one byte longer than its topic: 254/255 straddle the size forms), and next to every topic the publisher
+/// also sends its near misses (one byte shorter, one byte longer, last byte changed)
+fn scale_scenario(ty: Ty, n_topics: usize, n_subs: usize, topic_len: usize) -> Verdict {
     world::reset(world::WorldCfg { nested_env: false, yields: true, select: true, policy: 0, coop: false });
-    let topic = |i: usize| format!("t{:04}", i).into_bytes();
+    let topic = move |i: usize| {
+        let mut t = format!("t{:04}", i).into_bytes();
+        while t.len() < topic_len {
+            t.push(b'a' + (t.len() % 26) as u8);
+        }
+        t
+    };
+    let mut published: Vec<Vec<u8>> = Vec::new();
+    for i in 0..n_topics {
+        let t = topic(i);
+        published.push(t.clone());
+        if topic_len > 0 {
+            published.push(t[..t.len() - 1].to_vec());
+            let mut longer = t.clone();
+            longer.push(b'!');
+            published.push(longer);
+            let mut other = t.clone();
+            *other.last_mut().unwrap() ^= 1;
+            published.push(other);
+        }
+    }
+    let published2 = published.clone();
     let conns: Vec<e3::RawConn> = (0..n_subs).map(|p| e3::raw_conn(&format!("S{}", p))).collect();
     let mut n_msgs = 0usize;
     for (p, c) in conns.iter().enumerate() {
@@ -434,8 +459,8 @@ fn scale_scenario(ty: Ty, n_topics: usize, n_subs: usize) -> Verdict {
         } else {
             world::idle().await;
         }
-        for i in 0..n_topics {
-            let _ = sock.send(msg(&[format!("t{:04}", i).into_bytes(), b"x".to_vec()])).await;
+        for f in &published2 {
+            let _ = sock.send(msg(&[f.clone(), b"x".to_vec()])).await;
         }
         world::set_cond("published");
         world::wait_cond("never").await;
@@ -444,7 +469,7 @@ fn scale_scenario(ty: Ty, n_topics: usize, n_subs: usize) -> Verdict {
     let end = world::run(e3::HORIZON * 20);
     let mut v = Verdict::default();
     v.truncated = end != world::RunEnd::Quiescent;
-    let what = format!("{}: subscriber 0 with {} topics (every even one unsubscribed again), {} further subscribers with one topic each", ty.name(), n_topics, n_subs - 1);
+    let what = format!("{}: subscriber 0 with {} topics{} (every even one unsubscribed again), {} further subscribers with one topic each", ty.name(), n_topics, if topic_len > 0 { format!(" of {} bytes each, near misses published too", topic_len) } else { String::new() }, n_subs - 1);
     for p in world::panics() {
         v.violate("panic", format!("{}: {}", what, p));
     }
@@ -453,17 +478,18 @@ fn scale_scenario(ty: Ty, n_topics: usize, n_subs: usize) -> Verdict {
     }
     for (p, c) in conns.iter().enumerate() {
         let got: Vec<Vec<u8>> = c.tap_messages().into_iter().map(|m| m[0].clone()).collect();
-        let want: Vec<Vec<u8>> = if p == 0 { (0..n_topics).filter(|i| i % 2 == 1).map(topic).collect() } else { vec![topic(p % n_topics)] };
+        let subs: Vec<Vec<u8>> = if p == 0 { (0..n_topics).filter(|i| i % 2 == 1).map(topic).collect() } else { vec![topic(p % n_topics)] };
+        let want: Vec<Vec<u8>> = published.iter().filter(|f| subs.iter().any(|s| f.starts_with(s))).cloned().collect();
         if got != want && v.violations.is_empty() {
             let missing = want.iter().filter(|w| !got.contains(w)).count();
             let extra = got.iter().filter(|g| !want.contains(g)).count();
             v.violate(
                 "scale/delivery-differs-from-reference",
-                format!("{}: subscriber {} got {} messages, the reference says {} ({} missing, {} unexpected; first got {:?})", what, p, got.len(), want.len(), missing, extra, got.first().map(|f| String::from_utf8_lossy(f).to_string())),
+                format!("{}: subscriber {} got {} messages, the reference says {} ({} missing, {} unexpected; first got {:?})", what, p, got.len(), want.len(), missing, extra, got.first().map(|f| String::from_utf8_lossy(&f[..f.len().min(12)]).to_string())),
             );
         }
     }
-    v.outcome_hash = rc::fnv(format!("{}/{}", n_topics, n_subs).as_bytes());
+    v.outcome_hash = rc::fnv(format!("{}/{}/{}", n_topics, n_subs, topic_len).as_bytes());
     e3::finish(v)
 }
 
@@ -505,7 +531,8 @@ pub fn run(tier: Tier, replay: Option<String>) -> i32 {
         return crate::replay::replay_e3(&v, |p| {
             if p["scenario"] == "scale" {
                 let (ty, nt, ns) = (Ty::from_name(p["type"].as_str()?)?, p["topics"].as_u64()? as usize, p["subs"].as_u64()? as usize);
-                return Some(std::sync::Arc::new(move || scale_scenario(ty, nt, ns)) as zvcore::explore::Scenario);
+                let tl = p["topic_len"].as_u64().unwrap_or(0) as usize;
+                return Some(std::sync::Arc::new(move || scale_scenario(ty, nt, ns, tl)) as zvcore::explore::Scenario);
             }
             if p["scenario"] == "fault" {
                 let (ty, n, dead, kind, hk, pol) = (Ty::from_name(p["type"].as_str()?)?, p["n"].as_u64()? as usize, p["dead"].as_u64()? as usize, p["kind"].as_u64()? as u8, p["hash_key"].as_u64()?, p["policy"].as_u64()? as u8);
@@ -581,7 +608,12 @@ pub fn run(tier: Tier, replay: Option<String>) -> i32 {
     }
     for ty in [Ty::Pub, Ty::XPub] {
         for &(nt, ns) in tier.pick(&[(9usize, 2usize), (17, 3), (40, 20), (70, 70), (300, 2), (130, 130)][..], &[(9usize, 2usize), (17, 3), (40, 20), (70, 70), (300, 2), (130, 130), (1100, 3), (260, 260)][..]) {
-            jobs.push(e3::job(format!("C11/scale/{}/{}topics/{}subs", ty.name(), nt, ns), json!({"scenario":"scale","type":ty.name(),"topics":nt,"subs":ns}), 0, 10, move || scale_scenario(ty, nt, ns)));
+            jobs.push(e3::job(format!("C11/scale/{}/{}topics/{}subs", ty.name(), nt, ns), json!({"scenario":"scale","type":ty.name(),"topics":nt,"subs":ns}), 0, 10, move || scale_scenario(ty, nt, ns, 0)));
+        }
+        // topic lengths around the size-form boundary of the subscription frame (1 + topic bytes) and far beyond it
+        for tl in tier.pick(&[253usize, 254, 255, 256, 300, 70_000][..], &[127usize, 128, 253, 254, 255, 256, 257, 300, 8191, 8192, 8193, 70_000, 1_100_000][..]) {
+            let (nt, ns, tl) = (4usize, 3usize, *tl);
+            jobs.push(e3::job(format!("C11/scale/{}/{}topics/{}subs/len{}", ty.name(), nt, ns, tl), json!({"scenario":"scale","type":ty.name(),"topics":nt,"subs":ns,"topic_len":tl}), if tl <= 300 { 1 } else { 0 }, 2_000, move || scale_scenario(ty, nt, ns, tl)));
         }
     }
     e3::run_jobs_into(&mut ck, jobs, false);
@@ -591,7 +623,7 @@ pub fn run(tier: Tier, replay: Option<String>) -> i32 {
     ck.cov("traces_validated_against_impl", ex);
     ck.cov("histories", n_hist);
     ck.cov("exhaustive", true);
-    ck.cov("explanation", format!("for PUB and XPUB: every history of length <= {} over 11 per-subscriber operations (subscribe / unsubscribe to \"\", a, ab, b; three kinds of malformed subscription message) for one subscriber ({} histories) and every pair of histories of length <= 2 for two subscribers ({} pairs); after the subscriptions are processed (PUB: reader tasks to quiescence; XPUB: the application receives them) the socket publishes first frames \"\", a, ab, abc, b, c with a serial second frame. Oracle: reference multiset-of-prefixes model; each subscriber's wire carries message f exactly once iff an active subscription is a byte-prefix of f; wires are well-formed; XPUB.recv returns the subscribers' messages verbatim in per-peer order. Subscriber-failure family: 2..3 (thorough 4) subscribers of \"a\", each one in turn starting to fail writes (BrokenPipe / ConnectionReset / other) right before three publishes, under 3 (thorough 6) hash keys (iteration orders of the subscriber table): every other subscriber gets each message exactly once. Scale family (not exhaustive in the counts): one subscriber with 9..300 (thorough 1100) topics of which every even one is unsubscribed again, next to up to 130 (260) subscribers with one topic each; every topic published once; same reference model. states = histories, transitions = executions (default schedule, plus every single deviation for short histories).", tier.pick(4, 5), single.len(), pairs.len() * pairs.len()));
+    ck.cov("explanation", format!("for PUB and XPUB: every history of length <= {} over 11 per-subscriber operations (subscribe / unsubscribe to \"\", a, ab, b; three kinds of malformed subscription message) for one subscriber ({} histories) and every pair of histories of length <= 2 for two subscribers ({} pairs); after the subscriptions are processed (PUB: reader tasks to quiescence; XPUB: the application receives them) the socket publishes first frames \"\", a, ab, abc, b, c with a serial second frame. Oracle: reference multiset-of-prefixes model; each subscriber's wire carries message f exactly once iff an active subscription is a byte-prefix of f; wires are well-formed; XPUB.recv returns the subscribers' messages verbatim in per-peer order. Subscriber-failure family: 2..3 (thorough 4) subscribers of \"a\", each one in turn starting to fail writes (BrokenPipe / ConnectionReset / other) right before three publishes, under 3 (thorough 6) hash keys (iteration orders of the subscriber table): every other subscriber gets each message exactly once. Scale family (not exhaustive in the counts): one subscriber with 9..300 (thorough 1100) topics of which every even one is unsubscribed again, next to up to 130 (260) subscribers with one topic each; every topic published once; same reference model; the same with 4 topics of 253..256, 300 and 70000 (thorough: up to 1.1 M) bytes each, each published together with its near misses (one byte shorter, one byte longer, last byte changed). states = histories, transitions = executions (default schedule, plus every single deviation for short histories).", tier.pick(4, 5), single.len(), pairs.len() * pairs.len()));
     ck.assume("matching logic is sequential; interleavings of reader tasks with send are covered by yield points between subscribers (bound 1 on short histories)");
     ck.conclude()
 }
